@@ -76,6 +76,8 @@ def add_core_items(u, stub=(), verify=False):
     cs = contracts()
     if not verify:
         stub = list(cs)
+    import runner
+    src_core = runner.load_sources(('core',))['core']
     u.item('core', 'rounding::enum RoundingMode')
     u.raw(R5_DEFAULT, 'R5')
     # R5 trust anchors: the thread_local read/write and its initial value are exactly these texts
@@ -90,6 +92,9 @@ def add_core_items(u, stub=(), verify=False):
         c = cs[k]
         if k in stub:
             c.stub = True
+        if k not in src_core:
+            # a helper that no longer exists has no callers either (the crate would not compile): nothing to prove
+            continue
         u.fn('core', k, c)
     return cs
 
